@@ -222,6 +222,9 @@ func c01CachePuts(c *Ctx, eng *slicefx.Engine, cfg slicefx.OrderConfig) {
 					}
 				}
 			}
+			if want == "" {
+				want = eng.FieldLimitKey(fn, args[2], "Limit")
+			}
 			for k := range b.Limits {
 				if k == want {
 					limOK = true
